@@ -27,3 +27,19 @@ def fin(ok) -> bool:
     if twin():
         return False
     return bool(ok)
+
+
+def concrete_section():
+    """Context manager for a harness section that only handles *concrete* values (selectors were
+    already realised by explicit branching): CrossHair's tracing is switched off inside, so the
+    real code runs at native speed. Outside CrossHair (replay) it is a no-op."""
+    import contextlib
+
+    try:
+        from crosshair.tracers import NoTracing, is_tracing
+
+        if is_tracing():
+            return NoTracing()
+    except Exception:
+        pass
+    return contextlib.nullcontext()
